@@ -187,7 +187,8 @@ fn gen_threshold(prop: &str, r: &mut Prng, seed: u64, run: u64) -> Scenario {
             facts.terms.push(crate::facts::TermFact { id, name: format!("t{id}"), obsolete: false, replacement: None });
         }
         facts.isa = vec![(118, 1), (200, 118), (300, 200)];
-        let n = *r.pick(&[65_535usize, 65_536, 65_540, 70_000]);
+        let n = [65_535usize, 65_536, 65_540, 70_000][(run / 3_000) as usize % 4];
+        let _ = r.next_u64();
         let kind = r.usize_below(3);
         for j in 0..n {
             let t = match j % 50 {
@@ -221,7 +222,9 @@ fn gen_threshold(prop: &str, r: &mut Prng, seed: u64, run: u64) -> Scenario {
 
 pub fn gen_replicas(prop: &str, r: &mut Prng, seed: u64, run: u64, thorough: bool) -> Scenario {
     let forced = std::env::var("HPOSIM_FORCE_FACTS").map_or(false, |v| v == "threshold");
-    if (prop == "C10" || prop == "C03") && (r.chance(1, if thorough { 20_000 } else { 6_000 }) || forced) {
+    // at fixed run indices, so that every batch contains them whatever the seed
+    let period = if thorough { 60_000 } else { 6_000 };
+    if (prop == "C10" || prop == "C03") && (run % period == period / 2 || forced) {
         return gen_threshold(prop, r, seed, run);
     }
     let mut cfg = GenCfg::draw(r);
@@ -472,7 +475,11 @@ pub fn exec_replicas(ctx: &mut Ctx, s: &Scenario) -> Outcome {
             }
             Built::Err(e) | Built::Panic(e) => {
                 out.mixin(tag(&b.describe()));
-                if lens_owns(prop, "replica-failed") {
+                if prop == "C10" && s.mode == "size-threshold" {
+                    // every fact of this scenario is valid and the builder looks its terms up by id: a refusal here
+                    // is a lookup that did not find an added term
+                    out.violate(prop, "valid-facts-refused(size-threshold)", format!("{what}: {} — {e}", b.describe()));
+                } else if lens_owns(prop, "replica-failed") {
                     out.violate(prop, format!("replica-failed({:?})", spec.path), format!("{what}: {} — {e}", b.describe()));
                 } else {
                     if s.mode == "size-threshold" {
